@@ -139,8 +139,10 @@ def decide(pid, tier, seed, jobs, record, no_bounded, t0):
                 anchor_files = [f for f in pj.get("anchors", {}).get("files", []) if f.endswith(".py")]
     except Exception:
         pass
-    fn_files = [r.get("source", {}).get("file") for r in results if r.get("source", {}).get("file")]
-    frame = framecheck.check_files(extract.REPO, anchor_files + [f for f in fn_files if f and f.endswith(".py")])
+    # state kept between calls anywhere in the package can reach any operation: every module of the package is scanned
+    import glob as _glob
+    all_files = [os.path.relpath(f, extract.REPO) for f in _glob.glob(os.path.join(extract.REPO, "biobalm", "**", "*.py"), recursive=True)]
+    frame = framecheck.check_files(extract.REPO, anchor_files + all_files)
 
     # ---- Lean lemma library (thorough tier): rebuilt offline and audited; a failure is a problem of the machinery, not a violation
     lean = run_lean() if tier == "thorough" else {"ran": False, "note": "the Lean library is rebuilt and audited by the thorough tier (lean/check.sh)"}
